@@ -11,6 +11,7 @@ import (
 	"strconv"
 	"strings"
 	"sync"
+	"sync/atomic"
 	"syscall"
 	"time"
 )
@@ -99,6 +100,7 @@ const (
 )
 
 type Task struct {
+	gid  uint64 // id of the goroutine running the task (see Yield)
 	ID   int
 	Name string
 	Sim  *Sim
@@ -143,9 +145,50 @@ func (t *Task) park() uint64 {
 }
 
 // Yield reports to the scheduler and parks until scheduled again. Returns the wake command.
+//
+// Only the task's own goroutine may yield. A goroutine the library itself started (a changed tree may
+// do that) reaches the same hooks and callbacks while "its" task is the current one; it is outside the
+// scheduler's control, runs freely, and its yields are no-ops that are merely counted: the run is then
+// flagged as not reproducible and the process is not reused.
 func (t *Task) Yield(site Site, kind uint8, a, b uint64) uint64 {
+	if int64(runtime.NumGoroutine()) > expectedG.Load() && taskGID(t) != goid() {
+		foreignYields.Add(1)
+		if kind == KBlocked || kind == KWouldBlock {
+			runtime.Gosched() // a wait loop of a free-running goroutine: let the others move
+			time.Sleep(50 * time.Microsecond)
+		}
+		return CmdGo
+	}
 	t.send(Msg{Kind: kind, Site: site, A: a, B: b})
 	return t.park()
+}
+
+// expectedG is the number of goroutines the process has while only tasks and harness goroutines
+// exist; the goroutine id is parsed (a microsecond) only when there are more.
+var expectedG atomic.Int64
+
+// foreignYields counts schedule points reached by goroutines that are no task (see Yield).
+var foreignYields atomic.Int64
+
+//go:norace
+func taskGID(t *Task) uint64 { return t.gid }
+
+//go:norace
+func setTaskGID(t *Task, id uint64) { t.gid = id }
+
+// goid parses the current goroutine's id from its stack header ("goroutine 123 [").
+func goid() uint64 {
+	var buf [40]byte
+	n := runtime.Stack(buf[:], false)
+	var id uint64
+	for i := 10; i < n; i++ {
+		c := buf[i]
+		if c < '0' || c > '9' {
+			break
+		}
+		id = id*10 + uint64(c-'0')
+	}
+	return id
 }
 
 // Y is a plain schedule point.
@@ -187,6 +230,7 @@ func (t *Task) Count(k string) {
 
 func (t *Task) main() {
 	defer t.Sim.wg.Done()
+	setTaskGID(t, goid())
 	t.park()
 	defer func() {
 		var flag uint8
@@ -236,12 +280,13 @@ type Sim struct {
 	// "A Randomized Scheduler with Probabilistic Guarantees of Finding Bugs") instead of the random walk:
 	// always the highest-priority task that can run; at a change point the running task drops to the
 	// lowest priority. Finds orderings that need one task to stay ahead for long stretches.
-	PCT     bool
-	NoPCT   bool // set by a workload that must not use it
-	PCTLen  int  // range of the change points, in steps
-	pctPrio map[int]int
-	pctAt   []uint64
-	pctLow  int
+	Uncontrolled bool // goroutines that are no task reached schedule points: the run is not reproducible
+	PCT          bool
+	NoPCT        bool // set by a workload that must not use it
+	PCTLen       int  // range of the change points, in steps
+	pctPrio      map[int]int
+	pctAt        []uint64
+	pctLow       int
 
 	pendingW map[uint64]map[int]bool
 	Ledger   *Ledger
@@ -360,6 +405,9 @@ func (s *Sim) Run() bool {
 	for _, t := range s.Tasks {
 		go t.main()
 	}
+	expectedG.Store(int64(runtime.NumGoroutine()))
+	foreignAtStart := foreignYields.Load()
+	patience := 0
 	var cur *Task
 	if !s.NoPCT && len(s.Tasks) > 1 && s.Tape.S(1000) < pctShare {
 		s.PCT = true
@@ -406,6 +454,13 @@ func (s *Sim) Run() bool {
 			}
 			if s.Abnormal != "" {
 				break
+			}
+			if !progressed && foreignYields.Load() > foreignAtStart && patience < 400 {
+				// goroutines outside the scheduler's control exist in this run: what the tasks wait for may
+				// still happen by itself
+				patience++
+				time.Sleep(250 * time.Microsecond)
+				continue
 			}
 			if !progressed {
 				var parts []string
@@ -476,6 +531,10 @@ func (s *Sim) Run() bool {
 	}
 	close(s.wdStop)
 	setCur(nil)
+	if n := foreignYields.Load() - foreignAtStart; n > 0 {
+		s.Counts["uncontrolled-goroutine-schedule-points"] += int(n)
+		s.Uncontrolled = true
+	}
 	if s.Abnormal != "" {
 		return false
 	}
@@ -583,6 +642,7 @@ func (s *Sim) stepTask(t *Task) bool {
 		s.Ledger.checkpoint(t)
 	case KDone:
 		t.state = stDone
+		expectedG.Add(-1)
 		s.Ledger.checkpoint(t)
 	default:
 		panic(fmt.Sprintf("sim: unknown message kind %d", m.Kind))
